@@ -232,4 +232,13 @@ def _stubchain(ctx, R):
 
 _stubchain.rule_id = "C04.STUBCHAIN"
 
-RULES = [reset, nostale, distribute_rule, sort_rule, target, alllayers, optflow, stubattrs, setiter, nondet, engine, _optsmerge, _layeridx, _stubchain]
+def _layerwidth(ctx, R):
+    from .c03 import layerwidth
+    return layerwidth(ctx, R)
+
+
+_layerwidth.rule_id = "C03.LAYERWIDTH"
+
+# re-configuring an engine must leave it as a fresh engine with the same options would be: the derived layer width follows
+# the engine's current bounds, not the dict of the last set_options call
+RULES = [reset, nostale, distribute_rule, sort_rule, target, alllayers, optflow, stubattrs, setiter, nondet, engine, _optsmerge, _layeridx, _stubchain, _layerwidth]
